@@ -9,7 +9,7 @@ OUT=${SEED_OUT:-/tmp/mut_out}/$ID
 PKG=$(python3 -c "import json;print(json.load(open('$OUT/meta.json')).get('demo_pkg','.'))" 2>/dev/null || echo .)
 RUN=$(python3 -c "import json;print(json.load(open('$OUT/meta.json')).get('demo_run','Demo'))" 2>/dev/null || echo Demo)
 EX=$(python3 -c "import json;print(json.load(open('$OUT/meta.json')).get('existing_tests','.'))" 2>/dev/null || echo .)
-git -C /repo worktree remove --force /tmp/mut_$ID 2>/dev/null; git -C /repo worktree remove --force /tmp/mutb_$ID 2>/dev/null; git -C /repo worktree remove --force /tmp/mutc_$ID 2>/dev/null
+git -C /repo worktree remove --force /tmp/mut_$ID 2>/dev/null; git -C /repo worktree remove --force /tmp/mutb_$ID 2>/dev/null; git -C /repo worktree remove --force /tmp/mutc_$ID 2>/dev/null; git -C /repo worktree remove --force /tmp/mutd_$ID 2>/dev/null
 bash /verif/tools/confirm_seed.sh $ID $OUT "$PKG" "$RUN" $EX 2>&1 | tail -12
 D=/verif/seeded/$ID-$SUF; mkdir -p $D
 cp $OUT/patch.diff $OUT/demo_test.go $D/; cp $OUT/AGENT_README.md $D/ 2>/dev/null; cp $OUT/meta.json $D/meta.json 2>/dev/null
